@@ -124,10 +124,10 @@ func RectFromCenter(lat, lon, meters float64) (
 
 	} else {
 
-		latSin, latCos := math.Sincos(lat)
-		latT := math.Asin(latSin / rCos)
-		latTSin, latTCos := math.Sincos(latT)
-		lonΔ := math.Acos((rCos - latTSin*latSin) / (latTCos * latCos))
+		// equivalent to the tangent point form acos((cos(r)-sin(latT)*sin(lat))/
+		// (cos(latT)*cos(lat))) of the reference above, but without the
+		// cancellation that makes that form lose precision for small radii.
+		lonΔ := math.Asin(math.Min(1, math.Sin(r)/math.Cos(lat)))
 
 		minLon = lon - lonΔ
 		maxLon = lon + lonΔ
